@@ -4,12 +4,16 @@ SPEC = dict(
     props_file='Props/C15.v', props_mod='Props.C15',
     proof_files=['Proofs/Startup.v', 'Drv/Startup.v'],
     tie_vo=['Proofs/LeafTie2_applyPwmMapping.vo'],
+    # the persistence of the `fan init` / `fan reset` cobra commands is passed through a (by default identity) wrapper,
+    # so that their Save/Load/Delete calls appear in the same log as the controllers'
+    rewrites=[('cmd/fan/init.go', [(r'p := persistence\.NewPersistence\(dbPath\)', 'p := persistence.VerifWrap(persistence.NewPersistence(dbPath))')], None),
+              ('cmd/fan/reset.go', [(r'p := persistence\.NewPersistence\(dbPath\)', 'p := persistence.VerifWrap(persistence.NewPersistence(dbPath))')], None)],
     drivers=[dict(name='startup', drv_mod='Drv.Startup', drv_file='Drv/Startup.v', shard=30,
-                  args={'quick': ['n=110', 'nc=10'], 'thorough': ['n=1500', 'nc=80']}, timeout={'quick': 600, 'thorough': 3000})],
+                  args={'quick': ['n=100', 'nc=10', 'ncli=6'], 'thorough': ['n=1500', 'nc=80', 'ncli=40']}, timeout={'quick': 600, 'thorough': 3000})],
     rule='systematic grid (fan kind hwmon/file/cmd x PWM readable x RPM sensor x configured pwmMap x configured minPwm+maxPwm '
          'x stored state none/data/map/both; each: start, stop, start [, reset|init, start]) plus seeded random fleets of 1..3 fans '
          'sharing one bbolt file with random device responses (identity, quantiser, floor, three levels), random stored state and '
-         'random start/stop/reset/init sequences ending in a restart. Plus concurrent scenarios: K = 2..6 already analysed fans (RPM data + PWM map stored, hwmon/file mixed) whose real Run() are launched together on ONE bbolt file, half of them while a second user of the file (bolt.Open on the same path, 50..300 ms at a time) holds it during start-up; expectation per fan = C15_reuse (no Sweep, no MeasureRpm, no error), compared through the same case shape (one Start per fan). Each start = the real DefaultFanController.Run on real '
+         'random start/stop/reset/init sequences ending in a restart. Plus CLI-driven histories (file fans): fan2go.yaml in one directory, working directory in another, dbPath written as a RELATIVE or an absolute path; `fan init` and `fan reset` are the REAL cobra commands of cmd/fan (their persistence passes through an identity wrapper so its calls are logged), a start does what the daemon does (file loaded through viper, fans.NewFan from the loaded entry, persistence.NewPersistence(loaded dbPath), Run). Plus concurrent scenarios: K = 2..6 already analysed fans (RPM data + PWM map stored, hwmon/file mixed) whose real Run() are launched together on ONE bbolt file, half of them while a second user of the file (bolt.Open on the same path, 50..300 ms at a time) holds it during start-up; expectation per fan = C15_reuse (no Sweep, no MeasureRpm, no error), compared through the same case shape (one Start per fan). Each start = the real DefaultFanController.Run on real '
          'HwMonFan/FileFan/CmdFan objects until the first curve evaluation; observed: every PWM write (sweep = 256 consecutive writes '
          '255..0), every RPM read before the first regulation cycle (= RPM-curve measurement; the RPM monitor is parked), every '
          'persistence call, the controller\'s final pwmMap and the stored entries after each command. '
